@@ -242,6 +242,10 @@ impl<Mac: ByteArray<CRYPTO_SECRETBOX_MACBYTES> + Zeroize, Data: Bytes + Zeroize>
     ) -> Result<Output, Error> {
         use crate::classic::crypto_secretbox::crypto_secretbox_open_detached;
 
+        if self.tag.len() != CRYPTO_SECRETBOX_MACBYTES {
+            return Err(dryoc_error!("authentication tag has the wrong length"));
+        }
+
         let mut message = Output::new_bytes();
         message.resize(self.data.as_slice().len(), 0);
 
